@@ -265,6 +265,10 @@ def main():
     assert config.CACHE_DIRECTORY == os.path.abspath(cache), \
         "cache directory not configured"
     STATE["armed"] = True
+    if STATE["mode"] != "plain":
+        # (a step of its own before anything is compiled: a writer may be
+        # held here while the other one is already half-way through)
+        step("begin")
     results = [run_job(j) for j in spec["jobs"]]
     STATE["armed"] = False
     res = {"results": results, "steps": STEPS, "files": listing(cache)}
